@@ -117,17 +117,23 @@ class Visitor(_BaseVisitor[T], abc.ABC):
 
     :param ob: An object to walk.
     """
+    skip_siblings: Optional[Visitor.SkipSiblings] = None
     try:
       self.visit(ob)
     except (self.SkipChildren, self.SkipNode):
       return
     except self.SkipDeparture:           
       pass # not applicable; ignore
+    except self.SkipSiblings as ex:
+      skip_siblings = ex # the children of this node are not affected
     try:
       for child in self.get_children(ob):
           self.walk(child)
     except self.SkipSiblings:
       pass
+    if skip_siblings is not None:
+      # let the parent's loop stop iterating over the siblings
+      raise skip_siblings
     
   def visit(self, ob: T) -> None:
     """Extend the base visit with extensions.
@@ -176,6 +182,7 @@ class Visitor(_BaseVisitor[T], abc.ABC):
     """
     call_depart = True
     skip_node = False
+    skip_siblings: Optional[Visitor.SkipSiblings] = None
     try:
       try:
         self.visit(ob)
@@ -184,6 +191,9 @@ class Visitor(_BaseVisitor[T], abc.ABC):
         call_depart = False
       except self.SkipDeparture:           
         call_depart = False
+      except self.SkipSiblings as ex:
+        # the children and the departure of this node are not affected
+        skip_siblings = ex
       if not skip_node:
         try:
           for child in self.get_children(ob):
@@ -193,6 +203,9 @@ class Visitor(_BaseVisitor[T], abc.ABC):
     except self.SkipChildren:
       pass
     self.depart(ob, extensions_only=not call_depart)
+    if skip_siblings is not None:
+      # let the parent's loop stop iterating over the siblings
+      raise skip_siblings
 
 # Adapted from https://github.com/pawamoy/griffe
 # Copyright (c) 2021, Timothée Mazzucotelli
